@@ -11,6 +11,7 @@ CONSTANTS
   SpecialCids = {"m1", "m2"}
   Journal = FALSE
   Fork = FALSE
+  UserSer = FALSE
   DumpFile = FALSE
   VersionedCids = {}
   QuietCids = {}
